@@ -247,10 +247,24 @@ def correspond(H, tier, rng, driver_ok, stats, spec_only=False):
         else:
             nontriv.add(lib.canon(c))
     stats.update({"evaluations": sum(len(o) for o in impl_by_mode.values()), "distinct_nontrivial": len(nontriv),
-                  "samples": cases[:2] + cases[len(cases) // 2: len(cases) // 2 + 2] + cases[-1:],
+                  "samples": [brief_sample(c) for c in
+                              cases[:2] + cases[len(cases) // 2: len(cases) // 2 + 2] + cases[-1:]],
                   "compared": compared, "modes": modes, "distribution": dist,
                   "exhaustive": bool(getattr(H, "EXHAUSTIVE", {}).get(tier, False))})
     return {"disagreements": disagreements, "violations": violations}
+
+
+def brief_sample(o, keep=24):
+    """a case as shown in the evidence file: long arrays / strings are abbreviated (a random case may hold thousands of rows)"""
+    if isinstance(o, dict):
+        return {k: brief_sample(v, keep) for k, v in o.items()}
+    if isinstance(o, (list, tuple)):
+        if len(o) > keep:
+            return [brief_sample(v, keep) for v in o[:keep]] + [f"... {len(o) - keep} more"]
+        return [brief_sample(v, keep) for v in o]
+    if isinstance(o, str) and len(o) > 400:
+        return o[:400] + f"... {len(o) - 400} more chars"
+    return o
 
 
 def strip(o):
